@@ -8,7 +8,7 @@ Driver for C11 (NNLS solvers).  Stateful line protocol:
   `X id solver tolbits xbits*n`                                    vector returned by the C solver
         → `x finite=<0/1> nonneg=<0/1> negok=<0/1> kkt=<0/1> dist=<0/1/na> need=<f> tolmax=<f> rel=<f> maxdiff=<f|na> negpart=<f>`
   `B3 id tolbits maxiter`                                          run the BLOCK3 state machine with exact solves
-        → `b3 exit=<converged|iterCap|innerFuel> full=<n> boundary=<n> walk=<n> kkt=<0/1> dist=<0/1/na>`
+        → `b3 exit=<converged|iterCap|innerFuel> full=<n> boundary=<n> walk=<n> forced=<n> kkt=<0/1> dist=<0/1/na>`   (forced: walks whose last trial was taken by the forced-step rule)
 
 All decisions (`kkt`, `dist`, `nonneg`, `negok`, `spd`) are made by the definitions of `PsV.Nnls` on exact rationals.
 -/
@@ -193,7 +193,7 @@ def runB3 (s : Sys) (tolS : Rat) (maxIter : Nat) : String :=
   let dist := match s.ref with
     | none => "na"
     | some r => b2s (distCheck n s.mat tol x (vecOf r))
-  s!"b3 exit={showExit ex} full={st.nFull} boundary={st.nBoundary} walk={st.nWalk} kkt={b2s (kktCheck n s.mat s.vec x tol)} dist={dist}"
+  s!"b3 exit={showExit ex} full={st.nFull} boundary={st.nBoundary} walk={st.nWalk} forced={st.nForced} kkt={b2s (kktCheck n s.mat s.vec x tol)} dist={dist}"
 
 def step (st : Sys) (ws : List String) : Sys × String :=
   match ws with
